@@ -55,9 +55,12 @@ def hasEp : DomKind → Bool
 
 def defaultEp : Bytes := [100, 101, 102, 97, 117, 108, 116]
 
+/-- the entrypoint bytes decode as UTF-8 (`data[22:].decode()`) -/
+def utf8Ok (b : Bytes) : Bool := (String.fromUTF8? (ByteArray.mk (b.map UInt8.ofNat).toArray)).isSome
+
 def valid (k : DomKind) (d : DomVal) : Bool :=
   payloadLen k d.tag == some d.payload.length && d.payload.all (· < 256) &&
-    (if hasEp k then d.ep != defaultEp && d.ep.all (fun b => b < 256 && b != 37) else d.ep.isEmpty)
+    (if hasEp k then d.ep != defaultEp && d.ep.all (fun b => b < 256 && b != 37) && utf8Ok d.ep else d.ep.isEmpty)
 
 /-- human prefixes by kind, in `tag` order -/
 def prefixes : DomKind → List String
